@@ -157,6 +157,44 @@ pub proof fn lemma_div_add_multiple(x: int, q: int)
 {
 }
 
+/// where the bytes that `update`'s second branch compresses / keeps sit in data ++ input (pure sequence facts)
+pub proof fn lemma_update_layout(data: Seq<u8>, input: Seq<u8>, buf: Seq<u8>, filled: Seq<u8>, n: nat, start: int, end: int, c1: nat, c2: nat)
+    requires
+        data.len() == 128 * n + buf.len(),
+        buf == data.subrange(128 * n as int, data.len() as int),
+        buf.len() <= 128,
+        c1 == (if buf.len() > 0 { 1nat } else { 0nat }),
+        start == (if 0 < buf.len() < 128 { 128 - buf.len() } else { 0 }),
+        filled == (if 0 < buf.len() < 128 { buf + input.subrange(0, start) } else { buf }),
+        0 <= start <= end <= input.len(),
+        end == start + 128 * c2,
+    ensures
+        filled.len() == 128 * c1,
+        forall|i: int| 0 <= i < 128 * c1 ==> filled[i] == (data + input)[128 * n + i],
+        forall|i: int| 0 <= i < 128 * c2 ==> input.subrange(start, end)[i] == (data + input)[128 * (n + c1) + i],
+        input.subrange(end, input.len() as int) == (data + input).subrange(128 * (n + c1 + c2) as int, (data + input).len() as int),
+{
+    let d2 = data + input;
+    assert(128 * (n + c1) == 128 * n + 128 * c1);
+    assert(128 * (n + c1 + c2) == 128 * n + 128 * c1 + 128 * c2);
+    if buf.len() > 0 {
+        assert(buf.len() + start == 128);
+    }
+    assert forall|i: int| 0 <= i < 128 * c1 implies filled[i] == d2[128 * n + i] by {
+        if i < buf.len() {
+            assert(filled[i] == buf[i]);
+            assert(buf[i] == data[128 * n + i]);
+        } else {
+            assert(filled[i] == input[i - buf.len()]);
+        }
+    }
+    assert forall|i: int| 0 <= i < 128 * c2 implies input.subrange(start, end)[i] == d2[128 * (n + c1) + i] by {
+        assert(input.subrange(start, end)[i] == input[start + i]);
+        assert(d2[128 * (n + c1) + i] == input[128 * (n + c1) + i - data.len()]);
+    }
+    assert(input.subrange(end, input.len() as int) =~= d2.subrange(128 * (n + c1 + c2) as int, d2.len() as int));
+}
+
 /// `update`, second branch: top up the buffer (start), compress it, compress the blocks input[start..end], keep the
 /// rest; `end` is such that at least one byte and at most one full block are kept
 pub proof fn lemma_rep_append_big(
@@ -196,21 +234,19 @@ pub proof fn lemma_rep_append_big(
     let r = (input.len() - start) as nat;
     let c2 = blocks_before_last(r);
     lemma_update_counts(data.len(), buf.len(), input.len(), start, c1, c2);
-    assert(filled.len() == 128 * c1);
+    lemma_update_layout(data, input, buf, filled, n, start, end, c1, c2);
     assert(filled.len() / 128 == c1);
     assert((end - start) / 128 == c2) by {
         lemma_div_add_multiple(0, c2 as int);
     }
+    assert(d2.len() == data.len() + input.len());
     lemma_absorb_blocks_prefix(hinit, data, d2, n);
-    assert forall|i: int| 0 <= i < 128 * c1 implies filled[i] == d2[128 * n + i] by {
-    }
     lemma_absorb_from_blocks(hinit, d2, n, filled, c1);
-    let mid = input.subrange(start, end);
-    assert forall|i: int| 0 <= i < 128 * c2 implies mid[i] == d2[128 * (n + c1) + i] by {
-    }
-    lemma_absorb_from_blocks(hinit, d2, n + c1, mid, c2);
-    assert(128 * (n + c1) == 128 * n + 128 * c1);
-    assert(input.subrange(end, input.len() as int) =~= d2.subrange(128 * (n + c1 + c2) as int, d2.len() as int));
+    assert(h1 == absorb_blocks(hinit, d2, n + c1));
+    assert(tv + 128 * c1 == 128 * (n + c1));
+    lemma_absorb_from_blocks(hinit, d2, n + c1, input.subrange(start, end), c2);
+    assert(h2 == absorb_blocks(hinit, d2, n + c1 + c2));
+    assert(blocks_before_last(d2.len()) == n + c1 + c2);
 }
 
 } // verus!
